@@ -9,6 +9,7 @@ import (
 	"strconv"
 	"strings"
 	"sync"
+	"time"
 
 	"verif/stats"
 )
@@ -165,4 +166,16 @@ func Guard(f func()) (knownSig string) {
 // Show renders FIX bytes readably (SOH as '|').
 func Show(b []byte) string {
 	return strings.ReplaceAll(string(b), "\x01", "|")
+}
+
+// LocalZoneForShard puts the test process into a non-UTC local zone on most shards (a process
+// need not run in UTC): shard 0 stays in UTC, odd shards get +05:30, the other even ones -08:00.
+func LocalZoneForShard() {
+	switch shard, _ := Shard(); {
+	case shard == 0:
+	case shard%2 == 1:
+		time.Local = time.FixedZone("UTC+05:30", 5*3600+1800)
+	default:
+		time.Local = time.FixedZone("UTC-08:00", -8*3600)
+	}
 }
